@@ -147,6 +147,32 @@ fn families(id: &str, tier: Tier) -> Vec<BFamily<'static>> {
   f
 }
 
+/// The loop half of a mapper property whose statement reaches into the per-device loop: C06 ("after ... the release-all
+/// operation used on tablet-mode changes ... answers exactly as a newly created mapper ... no memory of ... repeat triggers
+/// survives" - anchored in remapping_loop.rs too) and C19 ("every mapper step and every release-all batch", judged on what
+/// is written to the device).  Runs the tablet-mode families of C12 that have chords, timers and long single-event
+/// histories, and keeps the discrepancies the judge attributes to `own` (DESIGN 4.2: a discrepancy can belong to several
+/// statements).
+pub fn loop_half(ctx: &Ctx, own: &str) -> (Vec<Violation>, Value, Option<String>) {
+  let fams: Vec<BFamily<'static>> = families("C12", ctx.tier).into_iter().filter(|f| f.name.starts_with("chord layout") || f.name.starts_with("repeat layout over {B,LEFTCTRL} with up to 2") || f.name.contains("one per wake-up, up to 2 tablet events") && !f.name.starts_with("verbose")).collect();
+  let cap = ctx.tier.pick(40_000_000u64, 2_000_000_000u64);
+  let mut total = BAgg::default(); let mut per_family: Vec<Value> = vec![]; let mut viols: Vec<Violation> = vec![];
+  for fam in &fams {
+    let mut a = explore_family(ctx, fam, own, false, cap);
+    per_family.push(json!({"family": fam.name, "executions": a.executions, "driver_calls": a.driver_calls, "distinct_write_logs": a.distinct_send_logs.len()}));
+    for ((prop, clause), (count, choices, detail, fail_at)) in std::mem::take(&mut a.viols) {
+      if viols.iter().any(|v| v.clause == clause) { continue; }
+      let x1 = run_once(&fam.layout, &fam.cfg, &choices, fail_at);
+      let art = json!({"engine": "B", "family": fam.name, "layout": layout_json(&fam.layout), "env": env_json(&fam.cfg), "choices": choices, "fail_at": fail_at, "log": log_json(&x1.log), "result": format!("{:?}", x1.result), "first_classified_to": prop});
+      viols.push(Violation { property: own.to_string(), clause: format!("device-level: {}", clause), signature: None, description: detail, artefact: art, count });
+    }
+    total.merge(a);
+  }
+  let cov = json!({"what": format!("the real per-device loop under the scripted driver (Engine B), tablet-mode families of C12 with chords, timers and long single-event histories; kept: discrepancies the judge attributes to {}", own), "families": per_family, "executions": total.executions, "driver_calls": total.driver_calls, "reset_batches_written": total.counters.get("reset_batches_written").cloned().unwrap_or(0)});
+  let mach = total.machinery.clone().or(if total.executions == 0 { Some("loop half ran no execution".to_string()) } else { None });
+  (viols, cov, mach)
+}
+
 pub fn run(ctx: &Ctx) -> Outcome {
   let id = ctx.id.as_str();
   let fams = families(id, ctx.tier);
@@ -163,6 +189,47 @@ pub fn run(ctx: &Ctx) -> Outcome {
       "executions": a.executions, "driver_calls": a.driver_calls, "injected_runs": a.injected_runs, "distinct_write_logs": a.distinct_send_logs.len(), "max_choice_points": a.max_choices, "wall_s": t.elapsed().as_secs_f64()}));
     for k in a.viols.keys() { witness_family.entry(k.clone()).or_insert(fi); }
     total.merge(a);
+  }
+  // C10: the loop is transparent for EVERY shape of step output, not only for those of the few layouts above.  The families
+  // above treat the mapper as a black box of which only "events or none" and the repeat instruction matter to the loop; a loop
+  // that looks into the event lists (filters, merges, reorders them) breaks that assumption.  So the layouts of the mapper
+  // corpus whose steps have the richest shapes (shared and repeated output keys, lifted modifiers, hand-overs, no-repeat
+  // releases, four mappings in effect) are each driven through the real loop with every history of up to 3 events, one event
+  // per wake-up, and the same oracle (writes = a fresh real mapper's non-empty outputs, in order).
+  let mut sweep_layouts = 0u64;
+  let mut sweep_viols: Vec<Violation> = vec![];
+  if id == "C10" {
+    use crate::props_a::{Job, Need};
+    let mut jobs: Vec<Job> = vec![];
+    jobs.extend(crate::props_a::shared_output_jobs(Need::Any));
+    jobs.extend(crate::props_a::handback_jobs(Need::Any));
+    jobs.extend(crate::props_a::two_modifier_jobs(Need::Any));
+    jobs.extend(crate::props_a::q4_jobs(Need::Any, false).into_iter().enumerate().filter(|(i, _)| ctx.tier == Tier::Thorough || i % 7 == 0).map(|(_, j)| j));
+    jobs.extend(crate::props_a::same_final_jobs(Need::Any, 4));
+    let items: Vec<(Layout, Vec<KeyCode>)> = jobs.into_iter().filter_map(|j| match j { Job::Fixed { layout, alphabet, .. } => Some((layout, alphabet)), _ => None }).collect();
+    sweep_layouts = items.len() as u64;
+    let one = Ctx { id: ctx.id.clone(), tier: ctx.tier, seed: ctx.seed, start: ctx.start, threads: 1 };
+    let depth = if ctx.tier == Tier::Quick { 3 } else { 4 };
+    let t = std::time::Instant::now();
+    let aggs: Vec<BAgg> = par_map(items.len(), ctx.threads, |i| {
+      let mut c = cfg(&items[i].1, depth, 0, 0, 0, 30); c.single_event_wakeups = true; c.empty_wakeups = false;
+      explore_family(&one, &BFamily { name: "mapper-corpus sweep", layout: items[i].0.clone(), cfg: c }, id, false, cap)
+    });
+    let mut sweep = BAgg::default();
+    for (i, mut a) in aggs.into_iter().enumerate() {
+      // a discrepancy found in the sweep keeps its own layout: reported here, not through the family table below
+      for ((prop, clause), (count, choices, detail, fail_at)) in std::mem::take(&mut a.viols) {
+        if let Some(v) = sweep_viols.iter_mut().find(|v: &&mut Violation| v.property == prop && v.clause == clause) { v.count += count; continue; }
+        let mut c = cfg(&items[i].1, depth, 0, 0, 0, 30); c.single_event_wakeups = true; c.empty_wakeups = false;
+        let x1 = run_once(&items[i].0, &c, &choices, fail_at);
+        let art = json!({"engine": "B", "family": "mapper-corpus sweep", "layout": layout_json(&items[i].0), "env": env_json(&c), "choices": choices, "fail_at": fail_at, "log": log_json(&x1.log), "result": format!("{:?}", x1.result)});
+        sweep_viols.push(Violation { property: prop, clause, signature: None, description: detail, artefact: art, count });
+      }
+      sweep.merge(a);
+    }
+    per_family.push(json!({"family": "mapper-corpus sweep: every layout of the families O3, NR4, M2, S4 and every 7th (thorough: every) layout of Q4, every history of up to 3 (4) events over the layout's own alphabet, one event per wake-up", "layouts": sweep_layouts,
+      "executions": sweep.executions, "driver_calls": sweep.driver_calls, "distinct_write_logs": sweep.distinct_send_logs.len(), "wall_s": t.elapsed().as_secs_f64()}));
+    total.merge(sweep);
   }
   let level = if inject { "fault_enumeration" } else { "model_checking" };
   let mut o = Outcome::new(level);
@@ -204,6 +271,7 @@ pub fn run(ctx: &Ctx) -> Outcome {
     let sig = chord_signature(prop, clause, detail);
     o.violations.push(Violation { property: prop.clone(), clause: clause.clone(), signature: sig, description: detail.clone(), artefact: art, count: *count });
   }
+  for v in sweep_viols { if !o.violations.iter().any(|w| w.property == v.property && w.clause == v.clause) { o.violations.push(v); } }
   if let Some(e) = &total.machinery { o.machinery_error = Some(e.clone()); }
   // Engine R: the same property below the Driver seam - the real driver, readers, writer and poll registry on real descriptors
   if matches!(id, "C10" | "C12" | "C20") {
